@@ -7,26 +7,26 @@ hooks = [l.split()[0] for l in hook_commits if " verif hook" in l]
 
 E1 = "explicit-state search over AddEdge operation sequences (canonical edge lists) x configuration grid on the real Layout, judged by an independent reference oracle"
 claimed = {
- "C01": ("bounded exhaustive exploration: every canonical AddEdge history up to the stated depth x the full algorithm/size/spacing grid, every RNG answer of the random greedy breaker, structured deep/wide families and edit-neighbourhoods of recorded witnesses; each execution runs the real Layout in a supervised worker process (panic, stack overflow, OOM, hang all observed)", E1 + "; process-level supervision for fatal ends", "2.3, 4-C01"),
+ "C01": ("bounded exhaustive exploration: every canonical AddEdge history up to the stated depth x the full algorithm/size/spacing grid, every RNG answer of the random greedy breaker, structured deep/wide families, gadget-insertion shapes and edit-neighbourhoods of recorded witnesses, the Splines router over 5 size modes x 4 spacings; each execution runs the real Layout in a supervised worker process (panic, stack overflow, OOM, hang all observed)", E1 + "; process-level supervision for fatal ends", "2.3, 4-C01"),
  "C02": ("bounded exhaustive: all edge lists up to depth 4/5 (+ deeper on a cheap tail) x algorithms x five size modes x virtual-node output; oracle = multiset equality with the input and the configured sizes", E1, "4-C02"),
  "C03": ("bounded exhaustive: all edge lists up to depth 5 (thorough 6, 7 on <=4 nodes), DAG multisets D(6,<=7..9), all positioners; oracle recomputes bands/direction from the returned coordinates only", E1, "4-C03"),
  "C04": ("bounded exhaustive: all edge lists up to depth 4/5 x size-aware positioners x EVERY width assignment from {2,30} (thorough {2,10,30}), layered families; oracle = pairwise rectangle disjointness and spacing", E1, "4-C04"),
  "C05": ("bounded exhaustive: all edge lists up to depth 4/5 x positioners x routers; oracle = exact endpoint/arrowhead equations on the returned layout", E1, "4-C05"),
  "C06": ("bounded exhaustive: all edge lists up to depth 4/5(+1) x size-aware positioners x routing styles x heterogeneous sizes; oracle = per-style shape rules", E1, "4-C06"),
  "C10": ("bounded exhaustive: all edge lists up to depth 5 (thorough 6, 7 on <=5 nodes) and every DAG multiset D(6,<=8) (thorough D(6,9), D(7,8)) — the space where pivots happen; optimality decided per instance by an LP-duality max-flow certificate, cross-checked by brute force; capped runs (hook H2) exempt", E1 + " + per-instance optimality certificate", "4-C10"),
- "C11": ("bounded exhaustive: all edge lists up to depth 5/6, DAG multisets, families; oracle = independent longest-path heights on the drawn orientation", E1, "4-C11"),
+ "C11": ("bounded exhaustive: all edge lists up to depth 5/6, DAG multisets, every connected simple DAG on 6 nodes in the 4m rotations of its source-/target-major edge orders, families; oracle = independent longest-path heights on the drawn orientation", E1, "4-C11"),
  "C12": ("bounded exhaustive: all simple edge lists up to depth 5/6, every 2-layer graph up to 3x4 (thorough 4x4) and 3-layer up to 2x3x2 (3x3x3), chains deeper than 64 layers; oracle = O(E^2) crossing count of the returned polylines vs the monitor event", E1 + "; monitor observation", "4-C12"),
- "C13": ("bounded exhaustive: every out-/in-tree up to 5/6 (thorough 7) edges in every edge order + larger tree families; oracle = drawn crossing count is 0", E1, "4-C13"),
+ "C13": ("bounded exhaustive: every out-/in-tree up to 6 (thorough 7) edges in every edge order, every ordered rooted tree with 7..9 (thorough ..11) nodes in depth-first / breadth-first edge order and every order within one edge move of those, larger tree families; oracle = drawn crossing count is 0", E1, "4-C13"),
  "C14": ("bounded exhaustive: all edge lists up to depth 5/6 (+ deeper on <=4 nodes), every RNG answer sequence; oracle = independent cycle test on the drawn orientation with each reversed edge flipped back", E1, "4-C14"),
  "C16": ("bounded exhaustive: all connected edge lists up to depth 5/6 x {VAlign,PackRight} x size modes x spacings with helper nodes visible; exact arithmetic oracle", E1, "4-C16"),
- "C07": ("choice-point DFS over map iteration orders on the instrumented build: every execution with <=1 (small inputs: <=2) deviating map orders (all k! orders up to 4 keys, rotations/transpositions/reversal beyond) must return the byte-identical layout; plus repeat-in-process, caller's-data-unmodified, and a fresh-process pass on the uninstrumented build", "stateless choice-point search (deviation-bounded) over instrumented map ranges + conformance pass against the uninstrumented build", "2.1, 2.4-E2, 4-C07"),
+ "C07": ("choice-point DFS over map iteration orders on the instrumented build: every execution with <=1 (small inputs: <=2) deviating map orders (all k! orders up to 4 keys, rotations/transpositions/reversal beyond) must return the byte-identical layout; plus repeat-in-process, caller's-data-unmodified, a fresh-process pass on the uninstrumented build, and an explicit-state search over option SEQUENCES (every sequence of <=3 options from an alphabet of 17 x 3 graphs: every size map and the edge slice unchanged, same call after a different call returns the same layout)", "stateless choice-point search (deviation-bounded) over instrumented map ranges + explicit-state search over option sequences + conformance pass against the uninstrumented build", "2.1, 2.4-E2, 4-C07"),
  "C08": ("bounded exhaustive differential check: all edge lists up to depth 3/4 (thorough 4/5) x every injective renaming of <=2 (<=1) nodes into an adversarial name pool + all-node renamings; Layout(rename(G)) == rename(Layout(G)) field by field", E1 + " under a deviation-bounded renaming family", "4-C08"),
- "C09": ("bounded exhaustive differential check: every ordered pair/triple of small connected graphs x ALL order-preserving interleavings of their edge lists; each part of the union's layout must equal its solo layout translated horizontally, extents disjoint", "explicit-state search over interleaved AddEdge histories of disjoint unions, differential oracle against solo runs", "4-C09"),
- "C15": ("stateless interleaving search under a cooperative scheduler on the sched-instrumented build: k=2 (all ordered pairs of a 6-item pool) and k=3 concurrent Layout calls, EVERY interleaving of the accesses to package-level variables and of the calls on sync objects reached through them (unbounded preemptions with state-key pruning when the scenario fits the schedule budget — it does on the current tree — otherwise iterative context bounding with the completed preemption bound reported); oracle: result == solo result, no pair of conflicting accesses without a common lock / Once ordering (lockset + Once happens-before), no deadlock; plus the static table of every package-level variable with its read/write sites; plus a separate free-running -race pass", "controlled-scheduler interleaving exploration (hand-written, DFS with state-key pruning) + separate free-running race-detector pass", "2.4-E4, 4-C15"),
+ "C09": ("bounded exhaustive differential check: every ordered pair/triple of small connected graphs x ALL order-preserving interleavings of their edge lists; pairs of richer components, large components (sizes around 16/32/64) next to richer ones in both orders; each part of the union's layout must equal its solo layout translated horizontally, extents disjoint", "explicit-state search over interleaved AddEdge histories of disjoint unions, differential oracle against solo runs", "4-C09"),
+ "C15": ("stateless interleaving search under a cooperative scheduler on the sched-instrumented build: k=2 (all ordered pairs of a 7-item pool) and k=3 concurrent Layout calls; scheduling points at every access to a package-level variable, around every call on a sync object reached through one, and before every top-level step of Layout itself; pairs: EVERY interleaving (unbounded preemptions, state-key pruning; the key hashes everything reachable from the package-level variables, slices up to capacity); triples: iterative context bounding within a stated schedule budget, completed preemption bound reported (3 in the quick tier); oracle: result == solo result, no pair of conflicting accesses without a common lock / Once ordering (lockset + Once happens-before), no deadlock; plus the static table of every package-level variable with its read/write sites; plus a separate free-running -race pass", "controlled-scheduler interleaving exploration (hand-written, DFS with state-key pruning) + separate free-running race-detector pass", "2.4-E4, 4-C15"),
  "C17": ("bounded exhaustive differential check: all edge lists up to depth 3/4 (4/5) x positioners x routers x every scale factor 2^k, k=-3..6: Layout(c x sizes) == c x Layout(sizes), exact", E1 + ", differential (scale) oracle", "4-C17"),
  "C18": ("explicit-state search over histories of Layout calls: breadth-first over global snapshots (generated for every package-level variable) until closure, plus EVERY history of <=3 (thorough 4) calls over a 24-operation alphabet (graphs x {no monitor, recording, panicking monitor}, empty graph, malformed edge)", "explicit-state BFS over call histories with the generated global snapshot as state key", "2.4-E3, 4-C18"),
- "C19": ("bounded exhaustive: every well-formed corridor of <=4 (thorough 5) rectangles on a 5-value grid x 36 general-position start/end points + the degenerate positions for k<=2 (known finding); oracle: exact segment-in-corridor test and visibility-graph Dijkstra length", "exhaustive grid enumeration of corridors on the real geom.Shortest against a reference model", "2.4-E5, 4-C19"),
- "C20": ("bounded exhaustive: spline fitted on every corridor of the C19 space whose shortest path bends (401 samples per piece inside the corridor +-0.05, endpoints, joins); root finder on every polynomial built from a root grid (forward error against the known roots)", "exhaustive grid enumeration on the real FitSpline / solve3 against reference models", "2.4-E5/E6, 4-C20"),
+ "C19": ("bounded exhaustive: every well-formed corridor of <=4 (thorough 5) rectangles on a 5-value grid x 36 (dense pass: 225) general-position start/end points, wide corridors (aspect up to 24:1), the router's own start/end positions + the degenerate positions for k<=2 (known finding); oracle: exact segment-in-corridor test and visibility-graph Dijkstra length", "exhaustive grid enumeration of corridors on the real geom.Shortest against a reference model", "2.4-E5, 4-C19"),
+ "C20": ("bounded exhaustive: spline fitted on every corridor of the C19 spaces (incl. the wide ones) whose shortest path bends (401 samples per piece inside the corridor +-0.05, endpoints, joins); root finder on every polynomial built from a root grid (forward error against the known roots)", "exhaustive grid enumeration on the real FitSpline / solve3 against reference models", "2.4-E5/E6, 4-C20"),
 }
 pending = {}
 props = [json.loads(l) for l in open(f"{V}/properties.jsonl")]
